@@ -41,7 +41,7 @@ fn default_runs(prop: Prop, tier: Tier) -> u64 {
         Prop::C11 => 2_000_000,
         Prop::C14 => 3_000_000,
         Prop::C16 => 1_500_000,
-        Prop::C18 => 1_000_000,
+        Prop::C18 => 800_000,
         Prop::C19 => 1_500_000,
     };
     match tier {
@@ -133,12 +133,12 @@ fn main() {
             let seed = seed_from(&args);
             let runs: u64 = args.opts.get("runs").and_then(|s| s.parse().ok()).unwrap_or(512);
             if let Some(only) = args.opts.get("only").and_then(|s| s.parse::<u64>().ok()) {
-                let r = generate(prop, seed, only, tier).exec(prop);
+                let r = util::with_big_stack(|| generate(prop, seed, only, tier).exec(prop));
                 println!("{} {} {:016x}", prop.name(), only, r.digest);
                 return;
             }
             for i in 0..runs {
-                let r = generate(prop, seed, i, tier).exec(prop);
+                let r = util::with_big_stack(|| generate(prop, seed, i, tier).exec(prop));
                 println!("{} {} {:016x}", prop.name(), i, r.digest);
             }
         }
@@ -290,7 +290,7 @@ fn run_sequence(prop: Prop, scns: &[AnyScn], class: &str) -> Option<scenario::Vi
     let (tx, rx) = std::sync::mpsc::channel();
     let v: Vec<AnyScn> = scns.to_vec();
     let cl = class.to_string();
-    std::thread::spawn(move || {
+    let _ = std::thread::Builder::new().stack_size(util::BIG_STACK).spawn(move || {
         let mut last = None;
         for s in &v {
             let r = s.exec(prop);
@@ -447,7 +447,7 @@ fn cmd_one(args: &Args) {
     println!("REPLAY {}", path.display());
     use std::io::Write;
     let _ = std::io::stdout().flush();
-    let r = scn.exec(prop);
+    let r = util::with_big_stack(|| scn.exec(prop));
     std::process::exit(if r.violations.is_empty() { 0 } else { 1 });
 }
 
@@ -539,7 +539,7 @@ fn cmd_replay(args: &Args) {
         // execute under a watchdog thread
         let (tx, rx) = std::sync::mpsc::channel();
         let scn2 = scn.clone();
-        std::thread::spawn(move || {
+        let _ = std::thread::Builder::new().stack_size(util::BIG_STACK).spawn(move || {
             let r = scn2.exec(prop);
             let _ = tx.send(r.violations.len());
         });
